@@ -1061,6 +1061,13 @@ class Normalizer:
                 inner_i = base.args[1]
                 if isinstance(inner_i, Term) and inner_i.op in ("unique", "nonzero1", "argsort", "list", "setdiff1d", "arange", "flatten", "ravel", "sort"):  # index vectors only: a scalar index would drop the axis
                     return self.nf(Term("getitem", base.args[0], Term("tuple", inner_i, idx.args[1])))
+            # a[lo:hi][k] = a[lo + k] for a position k >= 0 counted by a loop (wherever defined)
+            if isinstance(base, Term) and base.op == "getitem" and isinstance(base.args[1], Term) and base.args[1].op == "slice" and len(base.args[1].args) == 3 and _is_none_t(base.args[1].args[2]) and isinstance(idx, Term) and idx.op == "lv":
+                lo_ = base.args[1].args[0]
+                if _is_none_t(lo_) or _is_zero_t(lo_):
+                    return self.nf(Term("getitem", base.args[0], idx))
+                if isinstance(lo_, Term) and lo_.op == "const" and isinstance(lo_.args[0], (int, Fraction)) and not isinstance(lo_.args[0], bool) and lo_.args[0] > 0:
+                    return self.nf(Term("getitem", base.args[0], Term("add", idx, lo_)))
             # a[i][j] = a[i, j] for two scalar positions
             if isinstance(base, Term) and base.op == "getitem" and self._scalar_pos(base.args[1]) and self._scalar_pos(idx):
                 return self.nf(Term("getitem", base.args[0], Term("tuple", base.args[1], idx)))
